@@ -347,6 +347,12 @@ func (x *FnExec) applyContractSig(in ssa.Instruction, con *Contract, calleeName 
 		}
 		return env
 	}
+	// every abstract (ghost) cell the contract mentions exists in the caller's state BEFORE the
+	// call is applied: a cell first named by the callee's postcondition would otherwise read as
+	// the entry heap both before and after the call, and a 'modifies *' havoc would miss it
+	for _, g := range x.eng.ghostNamesOf(con) {
+		x.getHeap(st, "ghost:"+g, false)
+	}
 	pre := st.clone()
 	envPre := mkEnv(nil, pre.heaps, pre.heaps, pre.alloc)
 	// 1. preconditions
@@ -895,4 +901,74 @@ func isStoreIterator(t types.Type) bool {
 		}
 	}
 	return true
+}
+
+
+// ghostNamesOf: the names of the ghost cells a contract mentions (through defines as well).
+func (e *Engine) ghostNamesOf(con *Contract) []string {
+	seen := map[string]bool{}
+	visitedDefs := map[string]bool{}
+	var walk func(c CExpr)
+	walk = func(c CExpr) {
+		switch c := c.(type) {
+		case *CUnary:
+			walk(c.X)
+		case *CBinary:
+			walk(c.X)
+			walk(c.Y)
+		case *CCall:
+			if c.Fn == "ghost" && len(c.Args) > 0 {
+				if id, ok := c.Args[0].(*CIdent); ok && id.Name != "none" {
+					seen[id.Name] = true
+				}
+				for _, a := range c.Args[1:] {
+					walk(a)
+				}
+				return
+			}
+			if d, ok := e.cs.Defs[c.Fn]; ok && !visitedDefs[c.Fn] {
+				visitedDefs[c.Fn] = true
+				walk(d.Body)
+			}
+			for _, a := range c.Args {
+				walk(a)
+			}
+		case *CSel:
+			walk(c.X)
+		case *CIndex:
+			walk(c.X)
+			walk(c.I)
+		case *CTern:
+			walk(c.C)
+			walk(c.A)
+			walk(c.B)
+		case *CQuant:
+			walk(c.Body)
+		}
+	}
+	for _, cl := range con.Requires {
+		walk(cl.E)
+	}
+	for _, cl := range con.Ensures {
+		walk(cl.E)
+	}
+	for _, cl := range con.Assumed {
+		walk(cl.E)
+	}
+	for _, cl := range con.OnPanic {
+		walk(cl.E)
+	}
+	for _, cl := range con.PanicsIf {
+		walk(cl.E)
+	}
+	if con.PanicsIff != nil {
+		walk(con.PanicsIff.E)
+	}
+	for _, m := range con.Modifies {
+		walk(m)
+	}
+	for _, l := range con.Lets {
+		walk(l.E)
+	}
+	return sortedKeys(seen)
 }
